@@ -49,6 +49,9 @@ def r1_deserialise(ctx):
         "iso": {"outputs": ["0"], "inputs": {}, "payload": 5},
         "s": {"outputs": ["data"], "inputs": {}, "payload": 6},          # exactly one output, and it is a *named* one
         "u": {"outputs": ["0"], "inputs": {"q": ["s", "data"]}, "payload": 0},  # falsy payload
+        # node names are arbitrary: this one reads like "output `data` of node `s`" (namespaced / expanded graphs produce dotted names)
+        "s.data": {"outputs": ["0"], "inputs": {}, "payload": 7},
+        "v": {"outputs": ["0"], "inputs": {"r": "s.data"}, "payload": 8},       # the default output of the node called 's.data'
     }
     from ..terms import FuncRef
     ip = Interp(repo, call_models=_ts_models(), inline={f"{EXP}._deserialise_node", f"{EXP}.default_node_factory", f"{G}.nodes.Node.__init__",
@@ -85,7 +88,7 @@ def r1_deserialise(ctx):
         ctx.ok("C12.R1", loc(fi), "every serialised node is re-created (also isolated ones)")
     sinks = g.args[0] if isinstance(g, Obj) and g.cls.endswith("graph.Graph") and g.args else (g.kwargs.get("sinks") if isinstance(g, Obj) else None)
     names = sorted(s.args[0] for s in sinks if isinstance(s, Obj) and s.args) if isinstance(sinks, list) else None
-    want = ["c", "iso", "t", "u"]
+    want = ["c", "iso", "t", "u", "v"]
     if names != want:
         ctx.violation("C12.R1", fi.qual, loc(fi), "sinks of the rebuilt graph",
                       f"the rebuilt graph is defined by sinks {names}; it must be the nodes no other node consumes: {want} ('t' and 'iso' declare outputs but are terminal) — "
